@@ -179,6 +179,16 @@ def queue_internals(run, model, rule):
     for f in model.all_funcs():
         for n in ast.walk(f.node):
             if isinstance(n, ast.Attribute) and n.attr == 'unfinished_tasks' and isinstance(n.ctx, (ast.Store, ast.Del)):
+                # taking the items that are being dropped off the count (`-= len(q.queue)`, `= q.unfinished_tasks - dropped`) keeps the item a thread holds counted
+                relative = False
+                for st_ in ast.walk(f.node):
+                    if isinstance(st_, ast.AugAssign) and st_.target is n and isinstance(st_.op, ast.Sub):
+                        relative = True
+                    if isinstance(st_, ast.Assign) and any(t_ is n for t_ in st_.targets) and any(isinstance(y_, ast.Attribute) and y_.attr == 'unfinished_tasks' and isinstance(y_.ctx, ast.Load)
+                                                                                              for y_ in ast.walk(st_.value)):
+                        relative = True
+                if relative:
+                    continue
                 bad.append((f, n, 'sets the count of unfinished tasks itself: a delivery thread that holds an item at that moment calls task_done() once more than the count allows - '
                                   'ValueError ends the thread, and every later publication of that kind is delivered to nobody'))
             elif isinstance(n, ast.AugAssign) and isinstance(n.target, ast.Attribute) and n.target.attr == 'unfinished_tasks':
